@@ -275,7 +275,7 @@ def gen_regex(r):
         g = G(r, greedy)
         alts = g.top()
         t = rc.ast_text(rc.norm(alts_ast(alts, greedy)))
-        if not zero_width_loop(t) and not plus_empty_body(t):      # (a{0})+ reads out of bounds: listed finding, kept in the corpus
+        if not zero_width_loop(t) and not plus_backjump(t, null_only=True):      # (a{0})+ reads out of bounds: listed finding, kept in the corpus
             return alts, greedy
 
 
@@ -435,17 +435,30 @@ def zero_width_loop(ast_text):
         return False
 
 
-def plus_empty_body(ast_text):
-    """signature of C03-plus-empty-body: a `+` whose operand's code reference is null (it starts with something that emits no code)"""
-    def ref_null(n):
-        if n[0] == "zero" and n[1] == "e": return True
-        if n[0] == "range": return (n[2] == 0 and n[3] == 0) or (n[2] > 0 and ref_null(n[1]))
-        if n[0] == "cat": return ref_null(n[1])
-        return False
+def ref_off(n):
+    """offset of the instruction _yr_re_emit records for a node inside the node's code (None = null reference)"""
+    k = n[0]
+    if k == "zero": return None if n[1] == "e" else 0
+    if k == "cat": return ref_off(n[1])
+    if k == "plus": return ref_off(n[1])
+    if k == "range":
+        lo, hi = n[2], n[3]
+        if lo > 0: return ref_off(n[1])
+        if hi > lo + 1 or hi > 2: return 0
+        if hi > lo or hi > 1:
+            r = ref_off(n[1])
+            return None if r is None else r + (4 if hi > lo else 0)
+        return None
+    return 0
 
+
+def plus_backjump(ast_text, null_only=False):
+    """signature of C03-plus-backjump: a `+` whose operand's recorded instruction is not the first byte of its code"""
     def go(n):
-        if n[0] == "plus" and ref_null(n[1]):
-            return True
+        if n[0] == "plus":
+            r = ref_off(n[1])
+            if r is None or (r != 0 and not null_only):
+                return True
         return any(go(x) for x in n[1:] if isinstance(x, tuple))
     try:
         return go(parse_ast_text(ast_text))
@@ -490,7 +503,7 @@ CORPUS = [
     ("/ab{2,4}?c/", "", "a", b"abbbbc abc abbc"), ("/\\bfoo\\B/", "", "a", b"food foo"), ("/^ab/", "", "a", b"abab"), ("/ab$/", "", "a", b"abab"),
     ("/(\\B)*?b|./", "", "a", b"-\xe9a", "A(C(*l(B),l62),.)"), ("/(\\B)*b|./", "", "a", b"-\xe9a", "A(C(*g(B),l62),.)"),
     ("/^(a{,2}?){4,4}?/", "", "a", b"Aaaaaaa", "C(^,Rl4,4(Rl0,2(l61)))"),
-    ("/(a{0})+b/", "", "a", b"ab", "C(+g(Rg0,0(l61)),l62)"),
+    ("/(a{0})+b/", "", "a", b"ab", "C(+g(Rg0,0(l61)),l62)"), ("/x(a?b)+c/", "", "a", b"xabbc xbabc"),
     ("/[^a-c]x/i", "", "ai", b"Ax dx Dx"), ("/a.c/s", "wide", "ws", b"a\0\n\0c\0a\0b\0c\0"), ("/(a*)*b/", "", "a", b"aaab"), ("/(a|)*b/", "", "a", b"aab"),
 ]
 
@@ -572,8 +585,8 @@ def run(tier, replay=None):
             if "C03-continue-killed-fiber" in kf and "yr_re_exec: Assertion" in errx and killed_fiber_sig(toks.get("re", "")):
                 known_hits.setdefault("C03-continue-killed-fiber", []).append(cid)
                 continue
-            if "C03-plus-empty-body" in kf and plus_empty_body(toks.get("re", "")):
-                known_hits.setdefault("C03-plus-empty-body", []).append(cid)
+            if "C03-plus-backjump" in kf and plus_backjump(toks.get("re", ""), null_only=True):
+                known_hits.setdefault("C03-plus-backjump", []).append(cid)
                 continue
             if "C03-zero-width-loop-hang" in kf and rcx == "timeout" and zero_width_loop(toks.get("re", "")):
                 known_hits.setdefault("C03-zero-width-loop-hang", []).append(cid)
@@ -623,6 +636,9 @@ def run(tier, replay=None):
                 if spec["onlyEnd"] and got == 0 and "C03-matches-empty-at-end" in kf:
                     known_hits.setdefault("C03-matches-empty-at-end", []).append(cid)
                     continue
+                if got == 0 and "C03-plus-backjump" in kf and plus_backjump(toks["re"]):
+                    known_hits.setdefault("C03-plus-backjump", []).append(cid)
+                    continue
                 if got == 0 and "C03-nullable-repeat" in kf and nullable_repeat(toks["re"]):
                     known_hits.setdefault("C03-nullable-repeat", []).append(cid)
                     continue
@@ -654,6 +670,9 @@ def run(tier, replay=None):
         if vs and "C03-lazy-dot-chain" in kf and lazy_dot_chain(toks["re"]):
             known_hits.setdefault("C03-lazy-dot-chain", []).append(cid)
             vs, known = [], []
+        if vs and "C03-plus-backjump" in kf and all(v.startswith("missed") for v in vs) and plus_backjump(toks["re"]):
+            known_hits.setdefault("C03-plus-backjump", []).append(cid)
+            vs = []
         if vs and "C03-nullable-repeat" in kf and all(v.startswith("missed") for v in vs) and nullable_repeat(toks["re"]):
             known_hits.setdefault("C03-nullable-repeat", []).append(cid)
             vs = []
@@ -673,7 +692,7 @@ def run(tier, replay=None):
 
     def excuse(line, kind, err):
         toks = dict(t.split("=", 1) for t in line.split()[1:] if "=" in t)
-        if "C03-plus-empty-body" in kf and plus_empty_body(toks.get("re", "")):
+        if "C03-plus-backjump" in kf and plus_backjump(toks.get("re", ""), null_only=(kind != "subset")):
             return True
         if kind == "emit":
             return False
